@@ -280,7 +280,22 @@ def param_space_packages(rng, n):
     g = {}
     exec(src, g)
     out.append(("exec:no-import-path", g["TopX"]))
+    # a module whose qualified name is also the namespace path of another (`lib.amp` defined in lib/__init__.py, `lib.amp.Core` in
+    # lib/amp.py; here: `a` under `a.b`): from_proto files modules in a tree of namespaces, where a name is a module or a namespace
+    src = ("import hdl21 as h\nA = h.Module(name='a'); A.add(h.Port(name='p'))\n"
+           "B = h.Module(name='a.b'); q = B.add(h.Port(name='q')); B.add(A(p=q), name='i')\n")
+    g = {}
+    exec(src, g)
+    out.append(("names:module-is-also-namespace", g["B"]))
     return out
+
+
+def known_key(label, text):
+    """the recorded finding: from_proto refuses a package in which one module's qualified name is a namespace on another's path —
+    matched by the program *and* by that very refusal (any other failure of the program is reported)"""
+    if label == "names:module-is-also-namespace" and "Invalid namespace path" in text and "overwriting" in text:
+        return "import:module-is-also-namespace"
+    return None
 
 
 def run(ctx):
@@ -325,7 +340,7 @@ def run(ctx):
             im = {"pkg": j, "import_error": common.errstr(ex)}
         rep.count("import_model", "builtin:" + label)
         for v in judge_import(None, im, mo) or []:
-            rep.fail(v[0], {"stream": "import_model", "label": label}, {"detail": v[1]})
+            rep.fail(v[0], {"stream": "import_model", "label": label}, {"detail": v[1]}, finding_key=known_key(label, str(v[1]) + str(im.get("import_error"))))
     for label, pkg, top in labelled:
         rep.count("builtin", label)
         rt = roundtrip(pkg, top)
@@ -333,7 +348,8 @@ def run(ctx):
             stats["equal"] += 1
         else:
             stats["differs" if "differs" in rt else "error"] += 1
-            rep.fail("pred", {"stream": "builtin", "label": label}, {"why": "round trip does not reproduce the package", "roundtrip": str(rt)[:1500]})
+            rep.fail("pred", {"stream": "builtin", "label": label}, {"why": "round trip does not reproduce the package", "roundtrip": str(rt)[:1500]},
+                     finding_key=known_key(label, str(rt)))
     rep.extra["roundtrip_stats"] = stats
     rep.sample({"label": labelled[0][0], "top": labelled[0][2]})
 
